@@ -113,6 +113,8 @@ Clauses(st, e) ==
      <<"C05_FinalOutcome",
         (e.ev = "Observed" /\ e.s = "FINISHED" /\ Has(st.endo, e.f)) =>
             (IF st.endo[e.f][1] > 0 THEN 1 ELSE 0) = e.a /\ st.endo[e.f][2] = e.b>>,
+     <<"C02_QueriesNeverRaise",       \* running() / done() / cancelled() of the returned future never raise
+        e.ev = "ProbeRaise" => FALSE>>,
      <<"C06_TrueMeansNeverStarts",
         ((IsAttempt(e) \/ e.ev = "Invoke") /\ e.f \in st.ctrue) => FALSE>>,
      <<"C06_AnyCancelStopsRetry",
